@@ -94,6 +94,14 @@ def run_one(case):
             raw2 = bytearray(open(arc, "rb").read())
             raw2[32 + [3, 40, 150][case.get("variant", 0) % 3]] ^= 0x01       # inside the stored data: only a member CRC can notice
             open(arc, "wb").write(raw2)
+        elif cond == "noname-damaged":
+            # a foreign archive whose damaged member carries the empty string as its name: the library's verdict is a falsy bad name
+            from ..refcodec import write_archive
+            blob, regions = write_archive({"files": [{"name": "", "data": b"nameless member " * 30}, {"name": "b.txt", "data": b"named member " * 30}],
+                                           "folders": [{"nfiles": 2, "coders": [{"id": "copy"}], "crc": "substream"}]})
+            raw2 = bytearray(blob)
+            raw2[32 + 5] ^= 0x01
+            open(arc, "wb").write(raw2)
         out = os.path.join(wd, "out")
         if cmd == "i":
             ev["exit"], so, se = cli(["i"], wd)
@@ -107,7 +115,7 @@ def run_one(case):
                 if cond == "exists":
                     shutil.copy(good, arc)
             args = ["c", target, "src"]
-            vol = {"vol-digits": "4096", "vol-b": "4096b", "vol-k": "4k", "vol-m": "1m", "vol-g": "1g", "vol-tiny": "200b", "vol-bad-unit": "10x", "vol-empty": ""}.get(opt)
+            vol = {"vol-digits": "4096", "vol-b": "4096b", "vol-k": "4k", "vol-m": "1m", "vol-g": "1g", "vol-upper": "4K", "vol-tiny": "200b", "vol-bad-unit": "10x", "vol-empty": ""}.get(opt)
             if opt == "vol-tiny":
                 import random as _r
                 with open(os.path.join(wd, "src", "big.bin"), "wb") as f:      # enough data for about 2000 volumes of 200 bytes
@@ -136,7 +144,7 @@ def run_one(case):
                     names, data = lib_members(py7zr, arc)
                 else:
                     import multivolumefile
-                    want_vol = {"vol-digits": 4096, "vol-b": 4096, "vol-k": 4096, "vol-m": 1 << 20, "vol-g": 1 << 30, "vol-tiny": 200}[opt]
+                    want_vol = {"vol-digits": 4096, "vol-b": 4096, "vol-k": 4096, "vol-m": 1 << 20, "vol-g": 1 << 30, "vol-upper": 4096, "vol-tiny": 200}[opt]
                     vols = sorted(glob.glob(arc + ".[0-9][0-9][0-9][0-9]"))
                     sizes = [os.path.getsize(v) for v in vols]
                     vol_ok = bool(vols) and all(x == want_vol for x in sizes[:-1]) and 0 < sizes[-1] <= want_vol
@@ -223,12 +231,12 @@ def run(tier, rep, ev):
     # enumerate the same combinations the model does
     combos = []
     for cmd, conds, opts in (("i", ["absent"], ["none"]),
-                             ("c", ["absent", "exists"], ["none", "no-suffix", "dotted-name", "vol-digits", "vol-b", "vol-k", "vol-m", "vol-g", "vol-tiny", "vol-bad-unit", "vol-empty"]),
+                             ("c", ["absent", "exists"], ["none", "no-suffix", "dotted-name", "vol-digits", "vol-b", "vol-k", "vol-m", "vol-g", "vol-upper", "vol-tiny", "vol-bad-unit", "vol-empty"]),
                              ("a", ["intact", "absent", "header-damaged"], ["none"]),
                              ("l", ["intact", "intact-empty", "intact-dirs", "header-damaged", "data-damaged", "stored-damaged", "needs-password"], ["none", "verbose"]),
-                             ("x", ["intact", "intact-empty", "intact-dirs", "header-damaged", "data-damaged", "stored-damaged", "needs-password", "unsupported-method"],
+                             ("x", ["intact", "intact-empty", "intact-dirs", "header-damaged", "data-damaged", "stored-damaged", "noname-damaged", "needs-password", "unsupported-method"],
                               ["none", "verbose", "cwd"]),
-                             ("t", ["intact", "intact-empty", "intact-dirs", "header-damaged", "data-damaged", "stored-damaged", "needs-password", "unsupported-method"], ["none"])):
+                             ("t", ["intact", "intact-empty", "intact-dirs", "header-damaged", "data-damaged", "stored-damaged", "noname-damaged", "needs-password", "unsupported-method"], ["none"])):
         for c in conds:
             for o in opts:
                 combos.append((cmd, c, o))
